@@ -43,7 +43,7 @@ def run_workers(prop, tier, seed, mod, extra_env=None):
                                  stdout=subprocess.PIPE, stderr=subprocess.STDOUT)
             procs.append((i, p, out, e["PYTHONHASHSEED"]))
         results, problems = [], []
-        deadline = time.time() + mod.BUDGET[tier] * 3 + 120     # generous wall-clock watchdog
+        deadline = time.time() + mod.BUDGET[tier] * 6 + 180     # generous wall-clock watchdog (budgets are CPU time)
         for i, p, out, hs in procs:
             try:
                 so, _ = p.communicate(timeout=max(1, deadline - time.time()))
